@@ -14,6 +14,11 @@ Case format (JSON):
   negs: 'O' | 'U' | 'A' | ['X', ack(0/1), [bytes]]
   evs : ['S', hdr, [data]] | ['Q', hdr, [data]] | ['R'] | ['T', 'O'|'U'|'A', [fill]]
       | ['W', None | [status, payload...]]         (raw dongle answer, host-only cases: peer bypassed)
+      | ['N']  radio.send_packet returns None (usb.USBError swallowed by Crazyradio)   | ['E']  it raises
+      | ['ST', hdr, [data]]  send_packet that runs into its 2 s timeout if the queue is full (virtual clock)
+      | ['RW', wait]         receive_packet(wait)
+  'close': 1  RadioDriver.close() after the last event;  'stats': 1  with a link-statistics callback and a
+  statistics clock that jumps 0.25 s per reading (every rate/congestion branch runs)
       | ['D']   (last event) drain: acknowledged transmissions until nothing is pending, then receive all;
                 expanded at run time into explicit T/R events (Sim.executed is the explicit script)
 cflib is imported lazily from sys.path (check.py puts ctx.repo first); nothing is cached across trees.
@@ -95,6 +100,10 @@ class RadioTap:
     def __init__(self, cr, sim):
         self.cr, self.sim = cr, sim
         self.version = cr.version
+        self.closed = 0
+
+    def close(self):
+        self.closed += 1
 
     def send_packet(self, data):
         is_neg = isinstance(data, tuple)     # the negotiation sends a tuple, the main loop an array
@@ -149,8 +158,10 @@ class Sim:
             self.drv.in_queue = queue.Queue()
             self.drv.out_queue = queue.Queue(1)
             self.drv.link_error_callback = self._err
+            self.stats = []
+            stats_cb = (lambda d: self.stats.append(dict(d))) if case.get('stats') else None
             self.thread = rd._RadioDriverThread(RadioTap(self.cr, self), self.drv.in_queue, self.drv.out_queue,
-                                                None, self._err, self.drv, None)
+                                                stats_cb, self._err, self.drv, None)
             self.drv._thread = self.thread
         except Exception:
             rd._nr_of_retries = self._saved_N
@@ -163,8 +174,41 @@ class Sim:
     def _n_lost_errors(self):
         return sum(1 for _, m in self.errors if m == 'Too many packets lost')
 
+    def _n_exc_errors(self):
+        return sum(1 for _, m in self.errors if m.startswith('Error communicating with crazy radio'))
+
+    def _n_send_errors(self):
+        return sum(1 for _, m in self.errors if m == 'RadioDriver: Could not send packet to copter')
+
     def _close_event(self):
-        self.obs += [self._n_lost_errors(), self.drv.in_queue.qsize()]
+        self.obs += [self._n_lost_errors(), self._n_exc_errors(), self._n_send_errors(), self.drv.in_queue.qsize()]
+
+    class _Jump:
+        """virtual clock for queue.Queue timeouts: every reading is an hour later than the previous one, so a
+        put/get with a timeout on a full/empty queue gives up at once instead of sleeping"""
+
+        def __init__(self):
+            self.t = 1000.0
+
+        def __call__(self):
+            self.t += 3600.0
+            return self.t
+
+    def _with_virtual_clock(self, fn):
+        import queue as _q
+        saved = _q.time
+        _q.time = Sim._Jump()
+        try:
+            return fn()
+        finally:
+            _q.time = saved
+
+    def _packet(self, hdr, data):
+        pk = self.CRTPPacket()
+        pk.header = hdr
+        pk._port, pk._channel = (hdr & 0xf0) >> 4, hdr & 3
+        pk.data = bytes(data)
+        return pk
 
     def _app_event(self, e):
         if e[0] == 'S':
@@ -191,6 +235,23 @@ class Sim:
                 f = [pk.header] + list(pk.data)
                 self.got.append(f)
                 self.obs += [len(f)] + f
+        elif e[0] == 'ST':                 # send_packet whose 2 s pass (virtual clock) if the queue is full
+            n0 = self._n_send_errors()
+            ok = bool(self._with_virtual_clock(lambda: self.drv.send_packet(self._packet(e[1], e[2]))))
+            if ok:
+                self.accepted.append([e[1]] + list(e[2]))
+            self.obs += [1 if ok else 0, self._n_send_errors() - n0]
+        elif e[0] == 'RW':                 # receive_packet(wait)
+            if e[1] < 0 and self.drv.in_queue.empty():
+                self.obs.append(-8)        # would block for ever: not called
+            else:
+                pk = self._with_virtual_clock(lambda: self.drv.receive_packet(e[1]))
+                if pk is None:
+                    self.obs.append(-1)
+                else:
+                    f = [pk.header] + list(pk.data)
+                    self.got.append(f)
+                    self.obs += [len(f)] + f
         else:
             raise ValueError('bad event %r' % (e,))
         self._close_event()
@@ -223,7 +284,7 @@ class Sim:
         if self.open_tx:
             self._close_event()
             self.open_tx = False
-        while self.evs and self.evs[0][0] not in ('T', 'W'):
+        while self.evs and self.evs[0][0] not in ('T', 'W', 'N', 'E'):
             if self.evs[0][0] == 'D':                # drain: expanded here into explicit events
                 if self.drain_budget is None:        # a link that does not move (no safelink) must not loop
                     self.drain_budget = len(self.peer.txq) + 4
@@ -251,8 +312,16 @@ class Sim:
         self.last_write = frame
         self.obs += [len(frame)] + frame
         self.open_tx = True
-        rec = {'frame': frame, 'o': e[1] if e[0] == 'T' else 'W'}
+        rec = {'frame': frame, 'o': e[1] if e[0] == 'T' else e[0]}
         self.tx.append(rec)
+        if e[0] == 'N':                      # usb.USBError inside Crazyradio.send_packet -> it returns None
+            self.pending_reply = None
+            raise self.usb_error('scripted usb error')
+        if e[0] == 'E':                      # any other exception propagates out of radio.send_packet
+            self.pending_reply = None
+            self.obs.append(-7)
+            rec['ack'] = 'exc'
+            raise OSError('scripted failure of the dongle')
         if e[0] == 'W':
             self.pending_reply = e[1]
             if e[1] is None:
@@ -291,14 +360,41 @@ class Sim:
 
     def run(self):
         rd = self.rd
+        import cflib.crtp.radio_link_statistics as rls
+        saved_time = rls.time
+        if self.case.get('stats'):
+            class _T:
+                t = 5000.0
+
+                @classmethod
+                def time(cls):
+                    cls.t += 0.25
+                    return cls.t
+            rls.time = _T
+        try:
+            self._run()
+        finally:
+            rls.time = saved_time
+        return self._finish()
+
+    def _run(self):
+        rd = self.rd
         try:
             self.thread.run()
             if self.open_tx:
                 self._close_event()
                 self.open_tx = False
+            self.closed = None
+            if self.case.get('close'):       # RadioDriver.close() after the last event
+                tap = self.thread._radio
+                self.drv._radio = tap
+                self.drv.close()
+                self.closed = {'radio_closed': tap.closed, 'radio_ref': self.drv._radio is None,
+                               'callbacks_cleared': self.drv.link_error_callback is None
+                               and self.drv.radio_link_statistics_callback is None,
+                               'out_queue_empty': self.drv.out_queue.empty()}
         finally:
             rd._nr_of_retries = self._saved_N
-        return self._finish()
 
     def _finish(self):
         t = self.thread
@@ -327,7 +423,12 @@ class Sim:
         self.final = {'safe': bool(t._has_safelink), 'up': int(t._curr_up), 'down': int(t._curr_down),
                       'retry': int(t._retry_before_disconnect), 'needs_resending': bool(self.drv.needs_resending),
                       'inq': inq, 'outq': outq, 'data_out': dout, 'n_neg': self.n_neg,
-                      'other_errors': [m for _, m in self.errors if m != 'Too many packets lost']}
+                      'other_errors': [m for _, m in self.errors if m != 'Too many packets lost'
+                                       and not m.startswith('Error communicating with crazy radio')
+                                       and m != 'RadioDriver: Could not send packet to copter'],
+                      'exc_errors': self._n_exc_errors(), 'send_errors': self._n_send_errors(),
+                      'lq': (int(t._radio_link_statistics._retry_sum), len(t._radio_link_statistics._retries)),
+                      'closed': getattr(self, 'closed', None)}
         self.flat = head + self.obs + hostw + world
         self.flat_host = head + self.obs + hostw + _flatf(self.got)
         return self
@@ -387,3 +488,47 @@ def run_case(case):
     if case.get('threaded'):
         return Sim(case).run_threaded(case['threaded'])
     return Sim(case).run()
+
+
+def parse_all_status(arc, payload_of):
+    """Crazyradio.send_packet on every status byte: returns the flattened _radio_ack fields per status byte
+    (same layout as Model.ack_obs), for a dongle configured with set_arc(arc)."""
+    import cflib.drivers.crazyradio as crz
+
+    class Dev(FakeDev):
+        def __init__(self):
+            self.reply = None
+
+        def write(self, endpoint, data, timeout=None):
+            pass
+
+        def read(self, endpoint, n, timeout=None):
+            return array.array('B', self.reply)
+    dev = Dev()
+    cr = crz.Crazyradio(device=dev)
+    cr.set_arc(arc)
+    out = []
+    for s in range(256):
+        dev.reply = [s] + payload_of(s)
+        a = cr.send_packet((0xff,))
+        if a is None:
+            out += [-1]
+        else:
+            d = list(a.data)
+            out += [int(bool(a.ack)), int(bool(a.powerDet)), int(a.retry), len(d)] + d
+    return out
+
+
+def link_quality_run(retries):
+    """RadioLinkStatistics._update_link_quality on a sequence of ack.retry values: (sum, len, last value)"""
+    from cflib.crtp.radio_link_statistics import RadioLinkStatistics
+
+    class A:
+        pass
+    st = RadioLinkStatistics(None)
+    st.radio_link_statistics = {}
+    for r in retries:
+        a = A()
+        a.retry = r
+        st._update_link_quality(a)
+    return int(st._retry_sum), len(st._retries), st.radio_link_statistics.get('link_quality')
